@@ -269,9 +269,9 @@ def jobs(tier):
                        continue_after_violation=True))
     for eol in (0,):
         js.append(dict(name=f'H17a:pipeline:grammar:EOL={eol}', fn='h_pipeline', params=dict(eol=eol, source='grammar'), cost=300,
-                       budget_s=250 if tier == 'quick' else 600))
+                       budget_s=250 if tier == 'quick' else 600, continue_after_violation=True))
     for f in (['edfa_example_network.json'] if tier == 'quick' else ['edfa_example_network.json', 'meshTopologyExampleV2.json']):
-        js.append(dict(name=f'H17a:pipeline:{f}', fn='h_pipeline', params=dict(eol=0, source=f), cost=100))
+        js.append(dict(name=f'H17a:pipeline:{f}', fn='h_pipeline', params=dict(eol=0, source=f), cost=100, continue_after_violation=True))
     for s in ('defaults', 'numerical_order3', 'raman_off_custom_nli', 'perturbative_order4'):
         js.append(dict(name=f'H17c:sim_params_preserved:{s}', fn='h_sim_params', params=dict(setting=s), cost=80))
     return js
